@@ -429,6 +429,11 @@ def _relay(ctx: Ctx) -> None:  # noqa: C901, PLR0915
             pool = [g.tx for g in m.gens if keep == 2 or (keep == 1 and ch.draw(2, "pool.has"))]
             pool += [gb.gen_tx(ch, bulk, []).tx for _ in range(ch.draw(3, "pool.strangers"))]
             pool += [gb.malleate_witness(g, bulk) for g in m.gens if ch.chance(1, 8, "pool.twin?")]
+            # the same transaction held twice as two equal objects (mempool plus an extra pool, both read off the wire)
+            copies = [type(t).parse(t.serialize(include_witness=True, check_validity=False), check_validity=False) for t in pool if ch.chance(1, 6, "pool.copy?")]
+            if copies:
+                ctx.probe("pool-holds-equal-copies")
+            pool += copies
             pools[node] = ch.shuffled(pools[node] + pool, "pool.order")
             known = {rm.dsha(t.serialize(include_witness=True, check_validity=False)) for t in pools[node]}
             all_sid = {gcs.siphash24(k0, k1, w) & (2**48 - 1) for w in known | set(m.wtxids)}
